@@ -5,6 +5,11 @@ from .common import NPROC, write_ndjson
 from .tlc import run_tlc, MachineryError
 
 
+def flip_of(seed, rid):
+    """orientation variant of the explicit graphs of a record: 0 as enumerated, 1 all edges reversed, 2 every other one"""
+    return (seed + rid) % 3
+
+
 def tlc_cases(chk, family, tier):
     res = run_tlc("MC_Graph", "MC_Graph", workdir=chk.dir, env={"FAMILY": family, "TIER": tier},
                   timeout=1800)
